@@ -7,6 +7,64 @@ from props import tcommon
 PROP = "C14"
 
 
+def run_histories(prop, tier, seed, ev, ex, obs):
+    """like mprop.run_m but every distinct role of counterexample is handled on its own (a listed finding
+    never masks another violation)"""
+    import time
+    import vlib
+    import kprop
+    from vlib import log
+    rc, viol = 0, False
+    INJ = [("src/lib.rs", "replay_ghost.rs", "verif_replay_ghost")]
+    for name, _, thunk in obs:
+        try:
+            ob = thunk(ex)
+        except Exception as e:
+            log(f"[{prop}] {name}: INCONCLUSIVE ({type(e).__name__}: {str(e)[:300]})")
+            ev.add(name, "mirsym+z3", "inconclusive", 0, note=str(e)[:300])
+            rc = max(rc, 2)
+            continue
+        info = dict(detail=ob.detail[:300], queries=ob.queries, paths=ob.paths)
+        if ob.status == "discharged":
+            log(f"[{prop}] {ob.name}: discharged ({ob.detail}) in {ob.time_s:.1f}s")
+            ev.add(ob.name, "mirsym+z3", "discharged", ob.time_s, nonvacuous=True, **info)
+            continue
+        if ob.status == "inconclusive":
+            log(f"[{prop}] {ob.name}: INCONCLUSIVE: {ob.detail}")
+            ev.add(ob.name, "mirsym+z3", "inconclusive", ob.time_s, **info)
+            rc = max(rc, 2)
+            continue
+        for one in [ob] + list(getattr(ob, "others", [])):
+            role = one.role
+            log(f"[{prop}] {one.name}: solver found a history [{role}]: {one.detail}\n    results={one.cex.get('results')} fault={one.cex.get('fault')} steps: {' '.join(one.cex.get('steps', []))[:500]}")
+            path = vlib.write_replay(prop, {"property": prop, "values": one.cex, "replay_test": "replay_ghost_record", "role": role})
+            reproduced, out = None, "no native emulation for this fault position"
+            if role.startswith("recovered-dangling") and one.cex.get("fault") and one.cex["fault"][1] == "wal":
+                with vlib.Scratch("native", tag=f"{prop}-ghost") as scr:
+                    kprop.inject_all(scr, INJ, cfg="test")
+                    rcn, out = vlib.run_native_test(scr, "replay_ghost_record", env={"VERIF_REPLAY": path})
+                    oc = vlib.test_outcome(out, "replay_ghost_record")
+                    reproduced = None if oc is None else (oc == "failed")
+            kf = vlib.known_finding_for(prop, role)
+            oname = f"{one.name} [{role}]"
+            if reproduced is True:
+                if kf:
+                    log(f"KNOWN-FINDING: property={prop} {kf['what']}")
+                    ev.known.append(kf["what"])
+                    ev.add(oname, "mirsym+z3", "known-finding", one.time_s, replay=path, role=role, **info)
+                else:
+                    log(f"VIOLATION property={prop} replay={path}")
+                    log("    " + out[-700:])
+                    ev.violations += 1
+                    ev.add(oname, "mirsym+z3", "violated", one.time_s, replay=path, role=role, **info)
+                    viol = True
+            else:
+                log(f"[{prop}] {oname}: not confirmed on the real code -> INCONCLUSIVE\n    {str(out)[-400:]}")
+                ev.add(oname, "mirsym+z3", "inconclusive", one.time_s, note="history not reproduced natively", replay=path, **info)
+                rc = max(rc, 2)
+    return 1 if viol else rc
+
+
 def run(tier, seed, ev):
     import obl_trace as T
     with mirrun.mir_executor(PROP) as (ex, scr, mir_s):
@@ -23,11 +81,19 @@ def run(tier, seed, ev):
         if big:
             plan.append(("remove_range", [clean, nodangle]))
         rc = tprop.run_t(PROP, tier, seed, ev, ex, plan, U=2, HU=2, N=2, faults=1)
+        # histories: k operations, at most one failed call anywhere, then the abstract reopen
+        import mprop
+        import obl_history as H
+        hist = [("put", "put"), ("remove", "put")] + ([("put", "remove"), ("put", "put", "remove"), ("remove", "remove")] if big else [])
+        obs = [(f"history {' ; '.join(k)} with one failed call, then reopen", "history", (lambda k: lambda ex: H.ob_fault_history(ex, k, 2, 2))(k))
+               for k in hist]
+        rc = tcommon.best(rc, run_histories(PROP, tier, seed, ev, ex, obs))
         tcommon.fill(ev, ex, mir_s, [2], [
             "fault model of the property: ONE call fails (EIO/ENOSPC-style, no side effect) — every I/O call on every path is a "
             "candidate (symbolic choice); the failed call leaves no bytes behind",
-            "NOT decided: what later operations and a reopen do after the contained fault (J_f induction of DESIGN 4.1) — in particular "
-            "the suspected ghost-record scenario D6 (WAL record written, fdatasync fails) is outside this check"])
+            "histories: 2 (thorough 3) real operations in sequence with at most one failed call anywhere, then an abstract reopen = start "
+            "state + every record that reached a WAL file; live and recovered index must not point to missing blobs (finds the known finding D6)",
+            "a failed call leaves no bytes behind; a BufWriter keeps what it could not flush (std semantics)"])
         ev.bounds["key universe"] = 2
         ev.bounds["faults"] = "exactly 0 or 1 failing call per path, at any I/O call (open/write/flush/sync/rename/unlink/mkdir/read_dir/create-temp)"
         return rc
